@@ -8,8 +8,8 @@ LEVEL_RULE = (
     "bounded archetype instance is executed (states = choice points visited + reference-model states, transitions = answers "
     "taken + model transitions, traces = complete executions judged); non-trivial = distinct instances with at least one execution"
 )
-BOUNDS = {"quick": "archetype families with core parameter slice, targets <= 3 units, <= 6000 executions per instance", "thorough": "full parameter domains, <= 60000 executions / 900 s per instance"}
-CASE_TIMEOUT = {"quick": 400, "thorough": 2400}
+BOUNDS = {"quick": "archetype families with core parameter slice, targets <= 3 units, <= 12000 executions per instance (none reaches it: complete choice trees)", "thorough": "full parameter domains, <= 60000 executions / 900 s per instance"}
+CASE_TIMEOUT = {"quick": 900, "thorough": 3000}
 
 
 def enumerate_cases(tier, seed):
